@@ -1,5 +1,36 @@
-(* C03 — property theorems (bootstrap stage; see DESIGN.md section 6). *)
-From Verif Require Import Inflate.
-Theorem C03_spec_inflater_runs : status (inflate [] [3;0]) = Done /\ out (inflate [] [3;0]) = [].
-Proof. vm_compute. split; reflexivity. Qed.
-Print Assumptions C03_spec_inflater_runs.
+(* C03 — property theorems.  Model: RModel/Reader.v.  Panics and hangs of the real code are run-time observations (DESIGN.md 6).
+   Only statements, each closed by `exact`, followed by Print Assumptions. *)
+From Verif Require Import Reader ReaderProofs InflateMono.
+Open Scope N_scope.
+
+(* io.EOF only if the input really begins with a complete stream, and then the bytes are its output *)
+Theorem C03_eof_only_if_complete : forall dict chunks term,
+  rerror (rrun dict chunks term) = REOF ->
+  status (inflate dict (concat chunks)) = Done /\ rbytes (rrun dict chunks term) = out (inflate dict (concat chunks)).
+Proof. exact (eof_only_if_complete inflate_mono inflate_never_fuel). Qed.
+Print Assumptions C03_eof_only_if_complete.
+
+(* nothing fabricated: whatever was handed out before any error is a prefix of what the reference
+   inflater produces from the same input, and from any extension of it *)
+Theorem C03_bytes_are_reference_prefix : forall dict chunks term more,
+  is_prefix (rbytes (rrun dict chunks term)) (out (inflate dict (concat chunks ++ more))).
+Proof. exact (bytes_are_reference_prefix inflate_mono inflate_never_fuel). Qed.
+Print Assumptions C03_bytes_are_reference_prefix.
+
+(* a valid stream cut short ends in io.ErrUnexpectedEOF *)
+Theorem C03_truncated_is_unexpected_eof : forall dict s rest chunks,
+  status (inflate dict (s ++ rest)) = Done -> status (inflate dict s) = NeedInput ->
+  concat chunks = s -> rerror (rrun dict chunks TEOF) = RUnexpectedEOF.
+Proof. exact (truncated_is_unexpected_eof inflate_mono inflate_never_fuel). Qed.
+Print Assumptions C03_truncated_is_unexpected_eof.
+
+(* the verdict is a total function of the input: the reference inflater never runs out of fuel,
+   and a corrupt prefix stays corrupt whatever follows *)
+Theorem C03_total : forall dict s, status (inflate dict s) <> Fuel.
+Proof. exact inflate_never_fuel. Qed.
+Print Assumptions C03_total.
+Theorem C03_corrupt_is_final : forall dict s t, status (inflate dict s) = Corrupt ->
+  status (inflate dict (s ++ t)) = Corrupt /\ out (inflate dict (s ++ t)) = out (inflate dict s)
+  /\ bitpos (inflate dict (s ++ t)) = bitpos (inflate dict s).
+Proof. exact (corrupt_stable inflate_mono). Qed.
+Print Assumptions C03_corrupt_is_final.
